@@ -55,6 +55,8 @@ type Event struct {
 	R    string
 	Step int
 	Gen  int
+	At   time.Duration // fake time since the first event
+	D    string        // for returns of ReadSlices: the write token's state afterwards (down, pending, cN, held, closed)
 }
 
 func (e Event) String() string {
@@ -169,6 +171,7 @@ type point struct {
 }
 
 type World struct {
+	t0     time.Time
 	t      *testing.T
 	scn    *Scenario
 	sch    *sched
@@ -218,6 +221,10 @@ type crashSnap struct {
 
 func (w *World) ev(e Event) {
 	e.Step, e.Gen = w.step, w.gen
+	if w.t0.IsZero() {
+		w.t0 = time.Now()
+	}
+	e.At = time.Since(w.t0) // fake time: deterministic
 	w.log = append(w.log, e)
 	h := mix(w.logH, e.K)
 	h = mix(h, e.T)
